@@ -25,6 +25,36 @@ theorem enqueueSent_eq {c : Client} (n : Node) (h : c.sentQueue.length < 100) :
   have : ¬ c.sentQueue.length ≥ 100 := by omega
   simp [this]
 
+theorem sentS_drop_le (i : Nat) (l : List Node) : sentS i (l.drop 1) ≤ sentS i l := by
+  cases l with
+  | nil => exact Nat.le_refl _
+  | cons m l =>
+    show sentS i l ≤ sentS i (m :: l)
+    unfold sentS
+    rw [sumMap_cons]
+    omega
+
+/-- the sent queue after a node was put in: the node is there, and nothing was dropped unless the queue was full -/
+theorem enqueueSent_q (c : Client) (n : Node) :
+    ∃ q, enqueueSent c n = { c with sentQueue := q } ∧ n ∈ q ∧ (∀ m ∈ c.sentQueue, m ∈ q ∨ 100 ≤ c.sentQueue.length) ∧
+      ∀ i, sentS i q ≤ sentS i c.sentQueue + (if n.id = i then 1 else 0) := by
+  by_cases h : c.sentQueue.length ≥ 100
+  · refine ⟨c.sentQueue.drop 1 ++ [n], ?_, by simp, fun m _ => Or.inr h, ?_⟩
+    · unfold enqueueSent; simp [h]
+    · intro i
+      have := sentS_drop_le i c.sentQueue
+      unfold sentS at this ⊢
+      rw [sumMap_append]
+      simp only [sumMap_cons, sumMap_nil']
+      omega
+  · refine ⟨c.sentQueue ++ [n], ?_, by simp, fun m hm => Or.inl (List.mem_append_left _ hm), ?_⟩
+    · unfold enqueueSent; simp [h]
+    · intro i
+      unfold sentS
+      rw [sumMap_append]
+      simp only [sumMap_cons, sumMap_nil']
+      omega
+
 theorem view_sendToContact (s : Sys) (a : Acct) (c : Client) (n : Node) (peer : Acct) (se : Sess)
     (ha : a ∈ (view s).accounts) (hse : lookup c.sessions peer = some se) :
     view (sendToContact s a c n peer) =
